@@ -173,6 +173,10 @@ def _str_post(ctx):
         lo = data["min"] if minT is None else minT
         hi = data["max"] if maxT is None else maxT
         outside = any(t["entries"] and (t["entries"][0][0] < lo or t["entries"][-1][-2] > hi) for t in data["tiers"])  # intervals and points alike
+        if outside and blanks and core.is_praatio_error(ctx.exc):
+            # the refusal C04 demands: no document, hence none that is not well-formed
+            REC.held("decode", ("refused", fmt), "C02:entry-outside-requested-span-refused", None)
+            return
         if outside and (blanks or core.is_praatio_error(ctx.exc)):
             # (with blank filling off the pinned tree writes such entries verbatim; refusing them there too is what C04's sentence says)
             REC.skip("decode", "entry-outside-requested-span")
